@@ -18,19 +18,19 @@ T = {
  'C07': ('model_checking', 'all prior-history sequences up to a depth on the same context (real API calls) followed by a subject compression; output compared byte-for-byte with the fresh-context run; MT under every schedule of the bound',
          'histories deeper than the bound; state keyed by the operation history', 'history-replay state search (E3) + scheduler (E2)', '3/C07'),
  'C08': ('exploration', 'dictionary catalogue x supply modes x strategies x inputs, full product on structured dictionaries; every single-byte corruption of dictionary headers for memory safety',
-         'dictionaries > 64 KiB not enumerated', 'exhaustive product enumeration (E1)', '3/C08'),
+         'dictionaries > 64 KiB not enumerated; far-into-the-frame unit up to 1.1 MB of input', 'exhaustive product enumeration (E1)', '3/C08'),
  'C09': ('fault_enumeration', 'every proper prefix of every seed frame through every decoder, every bit flip of stored checksums, every content-size rewrite, wrong pledges over call histories',
-         'frames > 1 KiB; checksum flips on four kinds of decoder context (fresh, after verification was switched off and a full / parameter reset, static)', 'exhaustive truncation / field-fault enumeration (E1)', '3/C09'),
+         'frames > 1 KiB; checksum flips on four kinds of decoder context (fresh, after verification was switched off and a full / parameter reset, static); pledged sizes also with 1-2 workers under every schedule of the bound (scheduler E2)', 'exhaustive truncation / field-fault enumeration (E1)', '3/C09'),
  'C10': ('model_checking', 'progress and flush-decodability oracles on every transition of the C02 state graphs; hint-following decoder over every catalogue frame',
          'as C02; multithreaded drivers (D2, D12, D15) under the deterministic scheduler; readers with 1..64-byte buffers besides exact hint-following', 'explicit-state search on snapshots (E3) + preemption-bounded scheduler exploration (E2)', '3/C10'),
  'C11': ('model_checking', 'real zstdmt code under a deterministic scheduler: every schedule with at most P preemptions / D deviations of several drivers; oracle: termination, decodes to input (library + reference decoder), one output, ASan clean, and no data race (ThreadSanitizer evaluated inside every explored schedule, happens-before from the modelled primitives only); seam harnesses for the serial section and the pools without preemption bound',
-         'sequential consistency between synchronisation points; <= 3 workers; small-job build (ZSTDMT_JOBSIZE_MIN=1024)', 'preemption-bounded stateless exploration of the implementation under a deterministic scheduler (E2), state-cached exhaustive exploration of the serial-section / pool seams, race detection inside each explored schedule', '3/C11'),
+         'sequential consistency between synchronisation points; <= 4 workers; small-job build (ZSTDMT_JOBSIZE_MIN=1024); seam 2 (round input buffer) stubs out the block compression of a job and judges by ghost stamps', 'preemption-bounded stateless exploration of the implementation under a deterministic scheduler (E2), state-cached exhaustive exploration of the serial-section / pool seams, race detection inside each explored schedule', '3/C11'),
  'C12': ('model_checking', 'real pool.c under the deterministic scheduler for every client program of a small grammar and every schedule in the bound; exactly-once / join / resize / free oracles, no deadlock, no use-after-free, no unsynchronised access (sched-tsan unit)',
-         'threads <= 3, queue <= 2, programs <= 6 operations', 'preemption-bounded stateless exploration of the implementation under a deterministic scheduler (E2), race detection inside each explored schedule', '3/C12'),
+         'threads <= 3, queue <= 2, programs <= 6 operations; at most one job per program posts with the blocking call', 'preemption-bounded stateless exploration of the implementation under a deterministic scheduler (E2), race detection inside each explored schedule', '3/C12'),
  'C13': ('fault_enumeration', 'for each API scenario every allocation index is failed once (and every pair for short scenarios) through ZSTD_customMem; oracle: no crash, error returned, allocator live set empty, retry succeeds',
-         'scenario catalogue is finite; MT scenarios use the zero-deviation schedule', 'exhaustive fault-index enumeration (E1 + counting allocator)', '3/C13'),
+         'scenario catalogue is finite; MT scenarios: every allocation index on the zero-deviation schedule, and every (schedule, index) with <= 1 preemption and <= 1-2 deviations', 'exhaustive fault-index enumeration (E1 + counting allocator), crossed with preemption-bounded schedule exploration (E2) for the multithreaded scenarios', '3/C13'),
  'C14': ('exploration', 'static contexts of exactly the estimated size between guard pages, over all level pairs / cParams deviations / window descriptors; sizeof vs counting allocator',
-         'windowLog > 23 not run; static dictionaries with a process-heap oracle; wear unit: 300 jobs then a large one on a static context of the estimated size', 'exhaustive grid enumeration (E1)', '3/C14'),
+         'windowLog > 23 not run; frame sequences (2-3 frames of 8 kinds) on one static / heap DStream; static dictionaries with a process-heap oracle; wear unit: 300 jobs then a large one on a static context of the estimated size', 'exhaustive grid enumeration (E1)', '3/C14'),
  'C15': ('model_checking', 'all histories of frames on one context up to a depth with index rebasing forced every few KiB; each frame round-trips, conforms and equals the fresh-context output',
          'index limits lowered by build-time knobs (frequent-correction build and index-limit build); no real > 4 GiB run', 'history-replay state search (E3)', '3/C15'),
  'C16': ('model_checking', 'every parameter x value-grid x stage x object combination and every operation sequence up to depth 3 against a reference table transcribed from zstd.h',
